@@ -218,6 +218,17 @@ theorem C19_default_names_path_safe (str repr : κ → List Nat) (hbytes : ∀ k
   refine ⟨⟨fun h => (key 47 h).1 rfl, by decide⟩, ⟨fun h => (key 92 h).2.1 rfl, by decide⟩,
     ⟨fun h => (key 0 h).2.2 rfl, by decide⟩⟩
 
+/-- WHAT A FILE THAT IS ALREADY THERE DOES (the shipped behaviour, not a promise of the property): `_load_or_run`
+trusts whatever is under the key's name.  A complete pickle is served as it is — whatever value it holds — without
+calling `fn`; a truncated one (which the shipped save can never leave behind, `C19_cut_step_consistent`, but the
+pinned version could, `C19_direct_save_not_crash_safe`) makes the run raise; in both cases the directory is left as
+it was: nothing is recomputed or repaired, also not by a rerun. -/
+theorem C19_existing_file_is_trusted (mode : SaveMode) (size : β → Nat) (fn : α → β) (fs : FS κ β) (k : κ) (v : α)
+    (cut : Option Nat) (w : β) (p : Nat) (h : fs (.final k) = .data w p) :
+    loadOrRun mode size fn fs k v cut = (fs, if size w ≤ p then .ret w false else .loadError) := by
+  simp only [loadOrRun, h]
+  split <;> rfl
+
 /-- generated-table obligation about the temporary sibling `_pickle_save` writes to: its constant suffix does not
 end in `.p`, and neither constant part holds a path separator -/
 theorem C19_tmp_naming_facts : tmpPartsOk Gen.tmpSep Gen.tmpSuffix = true := by decide
